@@ -52,6 +52,154 @@ DEP_SEQS = [
 ]
 
 
+def check_saved_env(rep, cross):
+    """the functions that start a run (prepare, setup_vm_from_program) remember, in active_saved_env, the environment that was current
+    BEFORE they installed the module scope - it is what the terminal step / abandon restores"""
+    for meth in ('prepare', 'setup_vm_from_program'):
+        ex = common.executor(unwind=3)
+        ex.auto_havoc = True
+        F = ledger.InterpFields(ex)
+        ex.auto_frames = {'Interpreter': {F['env'], F['active_saved_env'], F['active_module_env']}}
+        ex.havoc(r'^Compiler::compile_program(_with_source)?$', ret=lambda e, s, c: EnumV('Result', 0, {0: {0: Opaque('Rc<BytecodeChunk>')}}),
+                 label='Compiler::compile_program (assumed to succeed)')
+        try:
+            fn = common.fn_name(ex, 'Interpreter', meth)
+        except driver.Inconclusive as err:
+            rep.inconc(str(err))
+            continue
+        f = ex.mir.get(fn)
+        st = State()
+        env0 = Opaque('Gc<JsObject>', z3.Int('$env_at_entry'))
+        a = st.alloc(Agg('struct', 'Interpreter', {F['env']: env0}, lazy=True))
+        args = [Ref(a)] + [ex.fresh(st, t, '$a%d' % i) for i, (n_, t) in enumerate(f.args) if i > 0]
+        ex.call_function(st, fn, args)
+        ends = ex.run(st, max_paths=20000)
+        n = 0
+        n_set = 0
+        bad = None
+        for e in ends:
+            if e.status in ('bound', 'panic'):
+                continue
+            if e.status != 'return':
+                rep.inconc('%s: %s %s' % (meth, e.status, e.detail[:160]))
+                continue
+            n += 1
+            iv = e.st.store[a]
+            sv = iv.fields.get(F['active_saved_env'])
+            envv = iv.fields.get(F['env'])
+            if not (isinstance(sv, EnumV) and isinstance(sv.discr, int) and sv.discr == 1):
+                continue          # nothing saved on this path (script without module scope, or an early error)
+            n_set += 1
+            tok = sv.payload[1][0]
+            g = z3.BoolVal(False) if not isinstance(tok, Opaque) else tok.id == env0.id
+            r, m = ex.check_sat_pc(e.st.pc, [z3.Not(g)])
+            if r == 'sat' and bad is None:
+                bad = (e, tok, envv)
+            elif r == 'unsat' and len(cross) < 4000:
+                cross.append(('%s saves the entry environment' % meth, list(e.st.pc) + [z3.Not(g)], 'unsat'))
+        what = 'Interpreter::%s: active_saved_env, when set, is the environment that was current at entry' % meth
+        rep.obligation(what, 'sat' if bad else 'unsat', '%d return paths, %d of them save an environment' % (n, n_set), 0.0)
+        if bad and not rep.seen('C11/%s/saved-env-is-not-the-entry-env' % meth):
+            e, tok, envv = bad
+            same_as_new = isinstance(tok, Opaque) and isinstance(envv, Opaque) and tok.id.eq(envv.id)
+            outs = driver.replay([{'cmd': 'module_seq', 'main': m_, 'dep': d, 'observer': o} for m_, d, o in DEP_SEQS])
+            rep.validated += len(outs)
+            wit = [(d, o, r_['observer'].get('value'), r_['fresh'].get('value')) for (m_, d, o), r_ in zip(DEP_SEQS, outs) if r_['observer'].get('value') != r_['fresh'].get('value')]
+            p = rep.write_replay('saved-env-%s' % meth, {'function': meth, 'saved_is_the_new_module_scope': same_as_new, 'witness_sequences': wit})
+            rep.violation('C11/%s/saved-env-is-not-the-entry-env' % meth, '%s stores %s in active_saved_env instead of the environment it found%s' % (
+                meth, 'the module scope it has just installed' if same_as_new else 'another environment',
+                '; observer after a module run sees %r, fresh interpreter %r' % (wit[0][2], wit[0][3]) if wit else ' (symbolic counterexample)'), p)
+        if n_set == 0:
+            rep.inconc('%s: no path saves an environment (vacuity)' % meth)
+        rep.vacuity.append('%s: %d paths save an environment' % (meth, n_set))
+        rep.sample({'kernel': '%s saved environment' % meth, 'paths': n, 'saving_paths': n_set})
+        rep.absorb(ex)
+
+
+def check_call_stack_ledger(rep, cross):
+    """Interpreter::call_stack (what call_depth() reports and the host limits) is popped once per VM frame that is left: by
+    restore_from_trampoline_frame and, per unwound frame, by handle_error_with_trampoline_unwind; pushed once per frame pushed"""
+    from . import c14
+    for meth, inline, rule in (('restore_from_trampoline_frame', ('unwind_frame_scopes',), 'one'),
+                               ('handle_error_with_trampoline_unwind', ('unwind_frame_scopes',), 'per-frame'),
+                               ('push_trampoline_frame_and_call_bytecode', (), 'push'),
+                               ('push_trampoline_frame_and_call_bytecode_construct', (), 'push')):
+        L = c14.Ledger(rep, inline, 3, ('find_exception_handler',) if meth.startswith('handle') else ())
+        ex = L.ex
+        names = ex.src.structs['Interpreter']
+        cidx = names.index('call_stack')
+        ex.auto_frames['Interpreter'] = {cidx}
+        suffix = '.%d:vec' % cidx
+
+        def is_cs(tok):
+            while isinstance(tok, tuple):
+                tok = tok[0]
+            return str(tok).endswith(suffix)
+
+        def cs_pop(e_, s_, c_):
+            from emir.models import deref
+            v_ = deref(e_, s_, c_.args[0])
+            if isinstance(v_, AbsVec) and is_cs(v_.tok):
+                s_.event('cs_pop_call')
+            return None
+        ex.overrides.append((re.compile(r'^Vec::pop$'), cs_pop))
+        fn = common.fn_name(ex, 'BytecodeVM', meth)
+        f = ex.mir.get(fn)
+        st = State()
+        a_vm, n0, t0 = L.fresh_vm(st)
+        args = [Ref(a_vm)]
+        for i, (a_, t) in enumerate(f.args[1:], 1):
+            ts = t.split('::')[-1]
+            if ts == 'TrampolineFrame':
+                args.append(Agg('struct', 'TrampolineFrame', {L.fsidx: AbsVec(z3.BitVec('frameA_scopes', 64), 'frameA.scopes', None)}, lazy=True, nm='$frameA'))
+            else:
+                args.append(ex.fresh(st, t, '$a%d' % i))
+        if meth.startswith('push_trampoline_frame'):
+            def key(s_):
+                ev = tuple(x[0] for x in s_.events if x[0] in ('tpop', 'abs_push', 'abs_pop'))
+                loc = tuple((f_.fn.name, f_.block, f_.ret_block, id(f_.on_return), tuple(sorted(f_.visits.items()))) for f_ in s_.frames)
+                return (loc, ev, ex.control_digest(s_))
+            ex.subsume_key = key
+        ex.call_function(st, fn, args)
+        ends = ex.run(st, max_paths=40000)
+        n = 0
+        bad = None
+        for e in ends:
+            if e.status in ('bound', 'panic'):
+                continue
+            if e.status != 'return':
+                rep.inconc('%s: %s %s' % (meth, e.status, e.detail[:160]))
+                continue
+            n += 1
+            cs_pop = sum(1 for x in e.st.events if x[0] == 'abs_pop' and is_cs(x[1]))
+            cs_push = sum(1 for x in e.st.events if x[0] == 'abs_push' and is_cs(x[1]))
+            fr_pop = sum(1 for x in e.st.events if x[0] == 'tpop')
+            fr_push = sum(1 for x in e.st.events if x[0] == 'abs_push' and L.is_tramp(x[1]))
+            # Vec::pop on an empty call_stack leaves no event: only frames that were really pushed are counted, so compare on the
+            # paths where the stack was not empty (pc decides); here: the number of pop CALL SITES reached is what matters
+            pop_calls = sum(1 for x in e.st.events if x[0] == 'cs_pop_call')
+            ok = {'one': pop_calls == 1 and cs_push == 0, 'per-frame': pop_calls == fr_pop and cs_push == 0, 'push': cs_push == fr_push and pop_calls == 0}[rule]
+            if not ok and bad is None:
+                bad = (pop_calls, cs_push, fr_pop, fr_push)
+        what = 'BytecodeVM::%s: interpreter call_stack entries are %s' % (meth, {'one': 'popped exactly once', 'per-frame': 'popped once per unwound frame', 'push': 'pushed iff a frame is pushed'}[rule])
+        rep.obligation(what, 'sat' if bad else 'unsat', '%d return paths (loops unrolled 3 times)' % n, 0.0)
+        if bad and not rep.seen('C11/%s/call-stack-entries' % meth):
+            outs = driver.replay([{'cmd': 'eval_seq', 'programs': [{'src': CS_FIRST}, {'src': CS_OBSERVER}]}])
+            rep.validated += 1
+            p = rep.write_replay('call-stack-%s' % meth, {'function': meth, 'call_stack_pop_calls': bad[0], 'call_stack_pushes': bad[1], 'frames_popped': bad[2], 'frames_pushed': bad[3], 'observed': outs[0]})
+            rep.violation('C11/%s/call-stack-entries' % meth, '%s has a path with %d call_stack.pop() for %d frames popped (%d pushes for %d frames pushed): entries of a dead run stay on the interpreter call stack' % (
+                meth, bad[0], bad[2], bad[1], bad[3]), p)
+        if n == 0:
+            rep.inconc('%s: no path reaches a return (vacuity)' % meth)
+        rep.vacuity.append('%s call_stack: %d return paths' % (meth, n))
+        rep.sample({'kernel': '%s call_stack ledger' % meth, 'return_paths': n})
+        rep.absorb(ex)
+
+
+CS_FIRST = 'function h(){ return null.x } function g(){ return h() } function f(){ return g() } f()'
+CS_OBSERVER = 'function r(n){ return n ? r(n - 1) + 1 : 0 } r(3)'
+
+
 def check_env_restoring_functions(rep, cross, specs=None, pid='C11'):
     """functions that install another environment temporarily must put the caller's environment back on EVERY return path"""
     specs = specs or [
@@ -255,6 +403,8 @@ def run(rep):
     rep.sample({'kernel': 'Interpreter::step terminal branch + finalize_active_execution', 'paths': len(ends), 'outcomes': sorted(outcomes)})
     rep.absorb(ex)
     check_env_restoring_functions(rep, cross)
+    check_saved_env(rep, cross)
+    check_call_stack_ledger(rep, cross)
     rep.cross = driver.cross_check(cross, 300, 'ALL', rep.tier, rep.seed)
     rep.extra['cross_checked_obligations'] = len(cross)
 
